@@ -10,8 +10,8 @@ use std::sync::Arc;
 // ---------------------------------------------------------------------------
 // Seeds
 
-pub const SEED_CLASSES: [&str; 8] = [
-    "uniform", "sparse", "dense", "single_byte", "word_patterns", "small_ints", "repeated_byte", "high_bits",
+pub const SEED_CLASSES: [&str; 9] = [
+    "uniform", "sparse", "dense", "single_byte", "word_patterns", "small_ints", "repeated_byte", "high_bits", "algebraic",
 ];
 
 /// A seed of `len` bytes of the class chosen by `p`; never all-zero unless
@@ -66,6 +66,33 @@ pub fn gen_seed(p: &mut Prng, len: usize, word_bytes: usize, allow_zero: bool) -
                 let b = p.below(256) as u8;
                 s.iter_mut().for_each(|x| *x = b);
             }
+            8 => {
+                // words related to each other: equal, negated, complemented, xor-to-zero, zero
+                p.fill(&mut s);
+                let nw = len / word_bytes;
+                let rd = |s: &[u8], i: usize| -> u64 { let mut v = 0u64; for k in 0..word_bytes { v |= (s[i * word_bytes + k] as u64) << (8 * k); } v };
+                let wr = |s: &mut [u8], i: usize, v: u64| { for k in 0..word_bytes { s[i * word_bytes + k] = (v >> (8 * k)) as u8; } };
+                let mask = if word_bytes == 4 { 0xffff_ffffu64 } else { u64::MAX };
+                for _ in 0..p.range(1, 3) {
+                    if nw < 2 { break; }
+                    let i = p.below(nw as u64) as usize;
+                    let j = (i + 1 + p.below(nw as u64 - 1) as usize) % nw;
+                    let wi = rd(&s, i);
+                    match p.below(6) {
+                        0 => wr(&mut s, j, wi),
+                        1 => wr(&mut s, j, wi.wrapping_neg() & mask),
+                        2 => wr(&mut s, j, !wi & mask),
+                        3 => wr(&mut s, j, 0),
+                        4 => { wr(&mut s, j, wi.wrapping_neg().wrapping_sub(p.below(3)) & mask) }
+                        _ => {
+                            // last word = xor of all the others
+                            let mut x = 0u64;
+                            for k in 0..nw - 1 { x ^= rd(&s, k); }
+                            wr(&mut s, nw - 1, x);
+                        }
+                    }
+                }
+            }
             _ => {
                 p.fill(&mut s);
                 for w in s.chunks_mut(word_bytes) {
@@ -81,6 +108,30 @@ pub fn gen_seed(p: &mut Prng, len: usize, word_bytes: usize, allow_zero: bool) -
             return (SEED_CLASSES[class], s);
         }
     }
+}
+
+/// Seeds aimed at special values of a particular generator: for SplitMix64 the
+/// counters whose k-th 64-bit output is 0 / 1 / MAX / 2^63 (k = 1..8).
+pub fn special_seeds(type_name: &str, len: usize) -> Vec<Vec<u8>> {
+    let mut v: Vec<Vec<u8>> = Vec::new();
+    if type_name == "SplitMix64" {
+        const PHI: u64 = 0x9e37_79b9_7f4a_7c15;
+        for out in [0u64, 1, u64::MAX, 1 << 63, 0xffff_ffff, 0xffff_ffff_0000_0000] {
+            let c = crate::models::vigna::SplitMix::unfin64(out);
+            for k in 1..=8u64 {
+                v.push(c.wrapping_sub(PHI.wrapping_mul(k)).to_le_bytes().to_vec());
+            }
+        }
+        for k in 0..=8u64 {
+            v.push(PHI.wrapping_mul(k).wrapping_neg().to_le_bytes().to_vec());
+        }
+    }
+    // all-ones, and alternating patterns, for every type
+    v.push(vec![0xff; len]);
+    v.push(vec![0xaa; len]);
+    v.push((0..len).map(|i| if (i / 4) % 2 == 0 { 0xff } else { 0 }).collect());
+    v.push((0..len).map(|i| if (i / 8) % 2 == 0 { 0 } else { 0xff }).collect());
+    v
 }
 
 /// every seed with exactly one non-zero byte out of {0x01, 0x80, 0xff}
@@ -106,6 +157,8 @@ pub enum Op {
     Fill(usize),
     Jump,
     LongJump,
+    /// type-specific auxiliary operation (only generated where a monitor handles it)
+    Aux(u8),
 }
 
 impl Op {
@@ -116,6 +169,7 @@ impl Op {
             Op::Fill(n) => format!("fill({})", n),
             Op::Jump => "jump".into(),
             Op::LongJump => "long_jump".into(),
+            Op::Aux(k) => format!("aux({})", k),
         }
     }
 }
